@@ -21,7 +21,7 @@ for s in $seeds; do
   cp -r /verif/properties.map.json /verif/known_findings.jsonl /verif/bounded /verif/contracts $tmpv/ 2>/dev/null
   out=$(/verif/bin/govc -repo $scr -verif $tmpv -property $prop -tier quick 2>&1)
   if echo "$out" | grep -q "^VIOLATION property=$prop"; then
-    echo "SELFTEST $s: caught ($(echo "$out" | grep -c '^VIOLATION') violation lines)"
+    echo "SELFTEST $s: caught ($(echo "$out" | grep -c "^VIOLATION") violation lines, $(echo "$out" | grep "^VIOLATION" | grep -vc "no-failing-input-found") replayed on the real code)"
   else
     echo "SELFTEST $s: MISSED by $prop"; rc=1
   fi
